@@ -608,4 +608,5 @@ func rtGen(g *Gen) {
 		g.Count("literal:text-hand")
 		g.Emit("k %s", stringToCodes(s))
 	}
+	rtGenHist(g)
 }
